@@ -247,6 +247,9 @@ class FitYamlReader(YamlReaderMixin, FitDReprBase):
             _fit_object._param_model = _read_parametric_model
             # changes of the uncertainties of the model that was read have to reach the fit
             _fit_object._param_model._on_error_change_callback = _fit_object._on_error_change
+            if _fit_type != "custom" and _fit_object._param_model.has_errors:
+                # ... and so do the uncertainties it came with (the fit may still be on its implicit no-errors cost function)
+                _fit_object._on_error_change()
 
         _dynamic_error_algorithm = yaml_doc.pop("dynamic_error_algorithm", None)
         if _dynamic_error_algorithm is not None:
